@@ -24,7 +24,7 @@
 #include "pool_strings.h"
 #include <dbus/dbus-marshal-header.h>
 #include <string.h>
-/* The two strlen() calls of dbus-marshal-basic.c (marshal_string / marshal_signature) see strings whose bytes are solver variables;
+/* The strlen() calls of dbus-marshal-basic.c (marshal_string / marshal_signature; today the only ones) see strings whose bytes are solver variables;
  * a byte-scanning strlen would make every later position symbolic.  They are replaced by a CHECKED oracle: the length is taken from
  * the wire-format length prefix in front of the value (or is the operand length for the new value), and the oracle's answer is an
  * obligation: no NUL among the first n bytes and a NUL at n.  A wrong guess fails the check, it cannot hide a defect. */
@@ -42,6 +42,7 @@ static size_t vf_strlen (const char *v)
 }
 #define strlen vf_strlen
 #include "/repo/dbus/dbus-marshal-basic.c"
+#include "/repo/dbus/dbus-marshal-header.c"          /* same oracle for any strlen a change introduces into the header code */
 #undef strlen
 #ifndef OP
 #define OP 1        /* 0 strip unknown, 1 set string-like field, 2 delete field, 3 set uint32 field */
